@@ -47,7 +47,9 @@ Record st := {
   limbo : bool;           (* sid->sessionTicketState = IN_LIMBO (client sent a ticket) *)
   ignored : Z;            (* ignoredMessageCount *)
   cl_early : bool;        (* tls13ClientEarlyDataEnabled *)
-  sv_early : bool         (* tls13ServerEarlyDataEnabled *)
+  sv_early : bool;        (* tls13ServerEarlyDataEnabled *)
+  ccs_last : bool;        (* ssl->decState = SSL_HS_CCC: the previous record was a ChangeCipherSpec (read off the implementation) *)
+  nst_pending : bool      (* client: sid->sessionTicketState = RECVD_EXT, the server promised a NewSessionTicket not yet received *)
 }.
 
 (* what the handshake layer answers when the record layer hands it a handshake record *)
@@ -69,27 +71,27 @@ Inductive outcome :=
 Definition set_err (s : st) : st :=
   {| v13 := v13 s; server := server s; hs := hs s; rsec := rsec s; wsec := wsec s; err := true; closed := closed s;
      ed_skip := ed_skip s; ed_seen := ed_seen s; ed_max := ed_max s; limbo := limbo s; ignored := ignored s;
-     cl_early := cl_early s; sv_early := sv_early s |}.
+     cl_early := cl_early s; sv_early := sv_early s; ccs_last := ccs_last s; nst_pending := nst_pending s |}.
 Definition set_closed (s : st) : st :=
   {| v13 := v13 s; server := server s; hs := hs s; rsec := rsec s; wsec := wsec s; err := err s; closed := true;
      ed_skip := ed_skip s; ed_seen := ed_seen s; ed_max := ed_max s; limbo := limbo s; ignored := ignored s;
-     cl_early := cl_early s; sv_early := sv_early s |}.
+     cl_early := cl_early s; sv_early := sv_early s; ccs_last := ccs_last s; nst_pending := nst_pending s |}.
 Definition set_hs (s : st) (h : Z) (r w v : bool) : st :=
   {| v13 := v; server := server s; hs := h; rsec := r; wsec := w; err := err s; closed := closed s;
      ed_skip := ed_skip s; ed_seen := ed_seen s; ed_max := ed_max s; limbo := limbo s; ignored := ignored s;
-     cl_early := cl_early s; sv_early := sv_early s |}.
+     cl_early := cl_early s; sv_early := sv_early s; ccs_last := ccs_last s; nst_pending := nst_pending s |}.
 Definition set_ed_seen (s : st) (n : Z) : st :=
   {| v13 := v13 s; server := server s; hs := hs s; rsec := rsec s; wsec := wsec s; err := err s; closed := closed s;
      ed_skip := ed_skip s; ed_seen := n; ed_max := ed_max s; limbo := limbo s; ignored := ignored s;
-     cl_early := cl_early s; sv_early := sv_early s |}.
+     cl_early := cl_early s; sv_early := sv_early s; ccs_last := ccs_last s; nst_pending := nst_pending s |}.
 Definition set_ignored (s : st) (n : Z) : st :=
   {| v13 := v13 s; server := server s; hs := hs s; rsec := rsec s; wsec := wsec s; err := err s; closed := closed s;
      ed_skip := ed_skip s; ed_seen := ed_seen s; ed_max := ed_max s; limbo := limbo s; ignored := n;
-     cl_early := cl_early s; sv_early := sv_early s |}.
+     cl_early := cl_early s; sv_early := sv_early s; ccs_last := ccs_last s; nst_pending := nst_pending s |}.
 Definition set_limbo_resumed (s : st) : st :=      (* CCS in CERTIFICATE state with a ticket in limbo *)
   {| v13 := v13 s; server := server s; hs := c_SSL_HS_FINISHED; rsec := true; wsec := wsec s; err := err s; closed := closed s;
      ed_skip := ed_skip s; ed_seen := ed_seen s; ed_max := ed_max s; limbo := false; ignored := ignored s;
-     cl_early := cl_early s; sv_early := sv_early s |}.
+     cl_early := cl_early s; sv_early := sv_early s; ccs_last := ccs_last s; nst_pending := nst_pending s |}.
 
 (* every path through `encodeResponse` with ssl->err set: the alert is written and the session is
    flagged (sslDecode.c 1811-1815; tls13Decode.c encodeResponse after the C15 repair) *)
@@ -146,7 +148,11 @@ Definition decode12 (s : st) (r : rec) (o : hsres) : st * outcome :=
       let t := r_outer r in
       if Z.eqb t c_SSL_RECORD_TYPE_CHANGE_CIPHER_SPEC then
         if negb (r_ccs_ok r) then fatal s c_SSL_ALERT_ILLEGAL_PARAMETER
-        else if Z.eqb (hs s) c_SSL_HS_FINISHED then (set_hs s (hs s) true (wsec s) (v13 s), Ignored)
+        else if Z.eqb (hs s) c_SSL_HS_FINISHED then
+          (* only Finished may follow a ChangeCipherSpec; RFC 5077: a promised NewSessionTicket comes before the CCS *)
+          if ccs_last s then fatal s c_SSL_ALERT_UNEXPECTED_MESSAGE
+          else if negb (server s) && nst_pending s then fatal s c_SSL_ALERT_UNEXPECTED_MESSAGE
+          else (set_hs s (hs s) true (wsec s) (v13 s), Ignored)
         else if Z.eqb (hs s) c_SSL_HS_CERTIFICATE && limbo s && negb (server s) then (set_limbo_resumed s, Ignored)
         else fatal s c_SSL_ALERT_UNEXPECTED_MESSAGE
       else if Z.eqb t c_SSL_RECORD_TYPE_ALERT then
